@@ -4,10 +4,13 @@ Property theorems only (model and spec: KinModel/Reads.lean; invariant lemmas: K
 regenerated call-site table: KinModel/Gen/ReadSites.lean).
 -/
 import KinModel.Reads
+import KinModel.ReadsMedium
 import KinModel.Lemmas.C11
 import KinModel.Gen.ReadSites
 import KinModel.Gen.WalkSites
 import KinModel.Gen.LoaderState
+import KinModel.Gen.ReaderGuards
+import KinModel.Lemmas.C11Readers
 namespace KinModel.Reads
 
 /-! ### first sentence: switch off -/
@@ -607,5 +610,163 @@ theorem walk_location_args : ∀ r ∈ walkSites,
     (r.arg = "&resolved" → r.callee = r.fn ∧
       r.locArg = (if r.fn = "resolvePathItemRef" then "documentPath" else "componentPath")) ∧
     (r.arg = "&p" → r.callee = r.fn ∧ r.fn = "resolvePathItemRef") := by decide
+
+/-! ### The library's own readers (openapi3/loader_uri_reader.go): the medium touched is the location handed over -/
+
+theorem faithfulB_iff (m : Medium) (l : RLoc) : faithfulB m l = true ↔ Faithful m l := by
+  cases m <;> simp [faithfulB, Faithful, and_assoc]
+
+/-- ReadFromHTTP alone: it fetches only the location itself, and only one that names a scheme and a host. -/
+theorem http_reader_reads_the_location (l : RLoc) : ∀ m, readFromHTTP l = some m → Faithful m l := by
+  intro m h
+  unfold readFromHTTP at h
+  split at h
+  · cases h
+  · rename_i hn
+    cases h
+    simp only [not_or] at hn
+    exact ⟨rfl, hn.1, hn.2⟩
+
+/-- ReadFromFile alone: a local file is read only for a host-less location without scheme or with `file:`, and it is
+the file at the location's path (a scheme-relative `//host/path` is NOT the local file `/path`). -/
+theorem file_reader_reads_the_location (l : RLoc) : ∀ m, readFromFile l = some m → Faithful m l := by
+  intro m h
+  unfold readFromFile at h
+  split at h
+  · rename_i hf
+    cases h
+    simp [isFile] at hf
+    exact ⟨hf.1.2, hf.2, rfl, hf.1.1⟩
+  · cases h
+
+/-- Every chain of the library's readers, in any order and of any length (`ReadFromURIs(...)`), reads the location it
+is handed or nothing. -/
+theorem reader_chain_reads_the_location (rs : List (RLoc → Option Medium)) (l : RLoc)
+    (hrs : ∀ r ∈ rs, r = readFromHTTP ∨ r = readFromFile) : Faithful (readFromURIs rs l) l := by
+  induction rs with
+  | nil => simp [readFromURIs, Faithful]
+  | cons r rest ih =>
+    unfold readFromURIs
+    cases hr : r l with
+    | none => exact ih (fun r' h' => hrs r' (List.mem_cons_of_mem _ h'))
+    | some m =>
+      rcases hrs r (List.mem_cons_self) with h | h
+      · subst h; exact http_reader_reads_the_location l m hr
+      · subst h; exact file_reader_reads_the_location l m hr
+
+/-- DefaultReadFromURI (below its cache): full strength, every location. -/
+theorem default_reader_reads_the_location (l : RLoc) : Faithful (defaultRead l) l :=
+  reader_chain_reads_the_location _ l (by simp)
+
+/-- A location that names a host is never served from the local file system. -/
+theorem host_location_never_local (l : RLoc) (h : l.host ≠ "") : ∀ p, defaultRead l ≠ .file p := by
+  intro p hp
+  have := default_reader_reads_the_location l
+  rw [hp] at this
+  exact h this.1
+
+/-- non-vacuity: the scheme-relative location `//h.example/etc/passwd` is unsupported, `/etc/x.json` is the local file -/
+example : defaultRead ⟨"", "h.example", "/etc/passwd"⟩ = .unsupported ∧ defaultRead ⟨"", "", "/etc/x.json"⟩ = .file "/etc/x.json" ∧
+    defaultRead ⟨"https", "h.example", "/x"⟩ = .http ⟨"https", "h.example", "/x"⟩ := by decide
+
+open KinModel.Gen in
+theorem reader_guards_recognised : ∀ r ∈ readerGuards, gRecognised r.exp = true := by decide
+
+open KinModel.Gen in
+/-- The conditions of openapi3/loader_uri_reader.go, regenerated as expression trees and EVALUATED on an arbitrary
+location, are the model's: `is_file` is `isFile`, ReadFromHTTP declines exactly when the model's does, ReadFromFile
+declines exactly when `is_file` is false. (A regrouped, weakened or extended condition changes the value on some
+location and breaks this obligation.) -/
+theorem reader_guards_as_modelled (l : RLoc) :
+    tableIsFile l = some (isFile l) ∧
+    tableDeclines "ReadFromHTTP" l = some (readFromHTTP l).isNone ∧
+    tableDeclines "ReadFromFile" l = some (readFromFile l).isNone := by
+  have h1 : guardRows "is_file" "return" =
+      [⟨"is_file", "return", .and (.and (.ne "Path" "") (.eq "Host" "")) (.or (.eq "Scheme" "") (.eq "Scheme" "file")), ""⟩] := by decide
+  have h2 : guardRows "ReadFromHTTP" "decline-if" =
+      [⟨"ReadFromHTTP", "decline-if", .or (.eq "Scheme" "") (.eq "Host" ""), ""⟩] := by decide
+  have h3 : guardRows "ReadFromFile" "decline-if" =
+      [⟨"ReadFromFile", "decline-if", .not (.call "is_file"), ""⟩] := by decide
+  have hf : tableIsFile l = some (isFile l) := by
+    simp [tableIsFile, h1, evalG, fieldOf, isFile]
+  refine ⟨hf, ?_, ?_⟩
+  · simp only [tableDeclines, h2, List.foldl, evalG, fieldOf]
+    simp [readFromHTTP]
+    by_cases a : l.scheme = "" <;> by_cases b : l.host = "" <;> simp [a, b]
+  · simp only [tableDeclines, h3, List.foldl, evalG]
+    simp [hf, readFromFile]
+    cases isFile l <;> simp
+
+open KinModel.Gen in
+/-- What each reader touches once it does not decline: ReadFromHTTP requests `location.String()` (the location itself),
+ReadFromFile reads `location.Path`, and the default reader is the chain [ReadFromHTTP, ReadFromFile] behind the cache —
+the model's `defaultRead`. -/
+theorem reader_media_as_modelled :
+    readerGuards.filterMap (fun r => if r.role = "fetches" ∨ r.role = "reads" ∨ r.role = "compose" then some (r.fn, r.role, r.text) else none) =
+      [("DefaultReadFromURI", "compose", "URIMapCache(ReadFromURIs(ReadFromHTTP(http.DefaultClient), ReadFromFile))"),
+       ("ReadFromHTTP", "fetches", "\"GET\" location.String()"),
+       ("ReadFromFile", "reads", "filepath.FromSlash(location.Path)")] := by decide
+
+open KinModel.Gen in
+/-- How the entry points build the root location (the model's `Input.root`): `LoadFromFile` hands `LoadFromURI` a
+`url.URL` whose ONLY field is `Path`, the file path as given (never parsed as a URL reference: a '#', '?' or '%XX' in a
+directory or file name stays part of the path); `LoadFromURI` / `LoadFromDataWithPath` pass their own, never re-assigned
+`location` parameter on to `loadFromDataWithPathInternal`, which passes it to `ResolveRefsIn`; `LoadFromData` (and through it
+`LoadFromIoReader` / `LoadFromStdin`) resolves with no location. All unconditional, at top level. -/
+theorem entry_points_root_location : ∀ r ∈ readSites,
+    (r.callee = "LoadFromURI" → r.fn = "LoadFromFile" ∧ r.guard = "" ∧ r.arg = "&url.URL{Path: filepath.ToSlash(location)}") ∧
+    (r.callee = "loadFromDataWithPathInternal" →
+      (r.fn = "loadFromURIInternal" ∨ r.fn = "LoadFromDataWithPath") ∧ r.guard = "" ∧ r.arg = "location" ∧ r.argIsParam = true ∧ r.argAssigns = 0) ∧
+    (r.callee = "ResolveRefsIn" → r.guard = "" ∧
+      ((r.fn = "LoadFromData" ∧ r.arg = "nil") ∨
+       (r.fn = "loadFromDataWithPathInternal" ∧ r.arg = "location" ∧ r.argIsParam = true ∧ r.argAssigns = 0))) ∧
+    (r.callee = "loadFromURIInternal" ∧ r.fn = "LoadFromURI" → r.arg = "location" ∧ r.argAssigns = 0) := by decide
+
+open KinModel.Gen in
+theorem entry_points_present :
+    (readSites.filter (fun r => r.callee == "LoadFromURI")).length = 1 ∧
+    (readSites.filter (fun r => r.callee == "loadFromDataWithPathInternal")).length = 2 ∧
+    (readSites.filter (fun r => r.callee == "ResolveRefsIn")).length = 2 := by decide
+
+/-! ### loader and default reader together -/
+
+/-- Whatever the load (either switch setting, any fuel): every medium the default reader touches is faithful to a
+location of the load's read log — so the theorems about the log are theorems about the files and URLs touched. -/
+theorem media_are_logged_locations (inp : Input) (fuel : Nat) :
+    ∀ m ∈ mediaOf (load inp fuel).1.log, ∃ u ∈ (load inp fuel).1.log, m = defaultRead u.toRLoc ∧ Faithful m u.toRLoc := by
+  intro m hm
+  obtain ⟨u, hu, rfl⟩ := List.mem_map.mp hm
+  exact ⟨u, hu, rfl, default_reader_reads_the_location _⟩
+
+/-- First sentence down to the medium: with the switch off, with the library's default reader, the only file or URL
+touched is the root document's own (and it is touched faithfully: a root that names a host is never a local file). -/
+theorem switch_off_default_reader_touches_root_only (inp : Input) (fuel : Nat) (hoff : inp.allowed = false) :
+    ∀ m ∈ mediaOf (load inp fuel).1.log, ∃ r, inp.root = some r ∧ m = defaultRead r.toRLoc ∧ Faithful m r.toRLoc := by
+  intro m hm
+  obtain ⟨u, hu, hm', hf⟩ := media_are_logged_locations inp fuel m hm
+  exact ⟨u, (switch_off_reads_root_only inp fuel hoff u hu).symm, hm', hf⟩
+
+/-- `LoadFromData` with the switch off: the default reader touches nothing. -/
+theorem switch_off_data_touches_nothing (inp : Input) (fuel : Nat) (hoff : inp.allowed = false)
+    (hd : inp.entry = Entry.data) : mediaOf (load inp fuel).1.log = [] := by
+  simp [mediaOf, switch_off_data_reads_nothing inp fuel hoff hd]
+
+open KinModel.Gen in
+/-- The Loader has exactly the fields the model knows: two exported switches, the context, and the private state of
+`loader_state_as_modelled`. A new field — state kept between calls, or a private copy of a switch — breaks this. -/
+theorem loader_fields_as_modelled :
+    (loaderState.filter (fun r => r.access == "field")).map (fun r => r.detail) =
+      ["IsExternalRefsAllowed bool", "ReadFromURIFunc ReadFromURIFunc", "Context context.Context", "rootDir string",
+       "rootLocation string", "visitedPathItemRefs map[string]struct{}", "visitedDocuments map[string]*T",
+       "visitedRefs map[string]struct{}", "visitedPath []string", "backtrack map[string][]func(value any)"] := by decide
+
+open KinModel.Gen in
+/-- The switch is READ, at the moment of every guard call, by `allowsExternalRefs` and by nothing else (never assigned,
+never copied into other state by the library): the model's guard uses the `allowed` of the current call, for every
+entry point including a direct `ResolveRefsIn` on a used Loader. Likewise the overridable reader is read by `readURL` only. -/
+theorem switch_read_by_guard_only :
+    (∀ r ∈ loaderState, r.field = "IsExternalRefsAllowed" → r.fn = "allowsExternalRefs" ∧ r.access = "read") ∧
+    (∃ r ∈ loaderState, r.field = "IsExternalRefsAllowed" ∧ r.fn = "allowsExternalRefs") ∧
+    (∀ r ∈ loaderState, r.field = "ReadFromURIFunc" → r.fn = "readURL" ∧ r.access = "read") := by decide
 
 end KinModel.Reads
